@@ -1,0 +1,132 @@
+// Verification hooks (cargo feature `verif-hooks`, off by default).
+//
+// `StunAgent::poll` walks its map of outstanding requests in `HashMap` iteration order, which
+// depends on a per-instance random hasher.  For exhaustive exploration of poll schedules that
+// order has to be a choice of the explorer, so with this feature enabled the agent uses the map
+// below instead: same API (through `Deref`), but every iteration first orders the entries by a
+// fixed hash of their key and then applies the permutation selected with
+// [`set_iteration_choice`] on the calling thread.  Nothing in here is compiled without the
+// feature.
+
+//! Verification hooks: a map whose iteration order is chosen by the caller.
+
+use std::cell::Cell;
+use std::collections::hash_map::DefaultHasher;
+use std::hash::{BuildHasherDefault, Hash, Hasher};
+
+type Inner<K, V> = std::collections::HashMap<K, V, BuildHasherDefault<DefaultHasher>>;
+
+thread_local! {
+    static ITERATION_CHOICE: Cell<usize> = const { Cell::new(0) };
+    static LAST_ITERATION_LEN: Cell<usize> = const { Cell::new(0) };
+}
+
+/// Select which permutation (index into the `n!` orders of `n` entries, taken modulo `n!`) the
+/// next iterations over a [`HashMap`] on this thread will use.  `0` is the canonical order.
+pub fn set_iteration_choice(choice: usize) {
+    ITERATION_CHOICE.with(|c| c.set(choice));
+}
+
+/// The permutation index currently selected on this thread.
+pub fn iteration_choice() -> usize {
+    ITERATION_CHOICE.with(|c| c.get())
+}
+
+/// Number of entries seen by the most recent ordered iteration on this thread.
+pub fn last_iteration_len() -> usize {
+    LAST_ITERATION_LEN.with(|c| c.get())
+}
+
+fn fixed_hash<K: Hash>(key: &K) -> u64 {
+    let mut h = DefaultHasher::new();
+    key.hash(&mut h);
+    h.finish()
+}
+
+fn permute<T>(mut items: Vec<T>) -> Vec<T> {
+    LAST_ITERATION_LEN.with(|c| c.set(items.len()));
+    let mut choice = iteration_choice();
+    let mut out = Vec::with_capacity(items.len());
+    // factorial number system: digit i selects among the remaining entries
+    let mut n = items.len();
+    while n > 0 {
+        let idx = choice % n;
+        choice /= n;
+        out.push(items.remove(idx));
+        n -= 1;
+    }
+    out
+}
+
+/// Drop-in stand-in for `std::collections::HashMap` with caller-chosen iteration order.
+pub struct HashMap<K, V> {
+    inner: Inner<K, V>,
+}
+
+impl<K, V> Default for HashMap<K, V> {
+    fn default() -> Self {
+        Self {
+            inner: Inner::default(),
+        }
+    }
+}
+
+impl<K, V> std::ops::Deref for HashMap<K, V> {
+    type Target = Inner<K, V>;
+    fn deref(&self) -> &Self::Target {
+        &self.inner
+    }
+}
+
+impl<K, V> std::ops::DerefMut for HashMap<K, V> {
+    fn deref_mut(&mut self) -> &mut Self::Target {
+        &mut self.inner
+    }
+}
+
+impl<K: Hash + Eq, V> HashMap<K, V> {
+    fn ordered(&self) -> Vec<(&K, &V)> {
+        let mut items: Vec<_> = self.inner.iter().collect();
+        items.sort_by_key(|(k, _)| fixed_hash(*k));
+        permute(items)
+    }
+
+    fn ordered_mut(&mut self) -> Vec<(&K, &mut V)> {
+        let mut items: Vec<_> = self.inner.iter_mut().collect();
+        items.sort_by_key(|(k, _)| fixed_hash(*k));
+        permute(items)
+    }
+
+    /// Iterate over the entries in the selected order.
+    pub fn iter(&self) -> impl Iterator<Item = (&K, &V)> {
+        self.ordered().into_iter()
+    }
+
+    /// Iterate mutably over the entries in the selected order.
+    pub fn iter_mut(&mut self) -> impl Iterator<Item = (&K, &mut V)> {
+        self.ordered_mut().into_iter()
+    }
+
+    /// Iterate over the keys in the selected order.
+    pub fn keys(&self) -> impl Iterator<Item = &K> {
+        self.ordered().into_iter().map(|(k, _)| k)
+    }
+
+    /// Iterate over the values in the selected order.
+    pub fn values(&self) -> impl Iterator<Item = &V> {
+        self.ordered().into_iter().map(|(_, v)| v)
+    }
+
+    /// Iterate mutably over the values in the selected order.
+    pub fn values_mut(&mut self) -> impl Iterator<Item = &mut V> {
+        self.ordered_mut().into_iter().map(|(_, v)| v)
+    }
+}
+
+impl<K: Hash + Eq + std::fmt::Debug, V: std::fmt::Debug> std::fmt::Debug for HashMap<K, V> {
+    fn fmt(&self, f: &mut std::fmt::Formatter<'_>) -> std::fmt::Result {
+        let mut items: Vec<_> = self.inner.iter().collect();
+        items.sort_by_key(|(k, _)| fixed_hash(*k));
+        f.debug_map().entries(items).finish()
+    }
+}
